@@ -564,7 +564,7 @@ pub fn run(p: &Params) -> Report {
     let mut rng = Rng::new(p.shard_seed() ^ 0xC09);
     let journal = p.journal.as_ref().and_then(|j| std::fs::File::create(j).ok());
     let mut mon = C09 { rep: Report::new("C09"), case_seed: 0, journal };
-    mon.rep.rule = "cases = API calls (apply_tx_batch, seal, next_unsealed, apply_block, confirm, from_block+header) on random histories over all network classes and fabricated heights with: one hostile mutation per batch (16 field-level mutators + byte-level mutation of the serialization that still deserializes), degenerate requests (zero-valued swaps/deposits/withdrawals, empty/garbage/partial MelPoW proofs at difficulties 0..2^32, undecodable stake documents, faucet-minted liquidity tokens, maximal values), every proposer delta class, multipliers 0..2^40; coins locked by adversarial covenant programs (self-append doubling up to 2^60 elements, nested loops, random bytes/instructions, environment digging) spent through apply_tx; transactions with 255/256/257/up to 700 inputs of existing coins, 255/256 outputs and hundreds of covenants and signature slots; every call runs under catch_unwind with a panic hook that records message, location and originating crate; each shard is its own process with a journal so an abort is attributed. Supply per denomination is kept below 2^127 by construction. Non-trivial = batch with a hostile or degenerate member; distinct by member hashes".into();
+    mon.rep.rule = "cases = API calls (apply_tx_batch, seal, next_unsealed, apply_block, confirm, from_block+header) on random histories over all network classes and fabricated heights with: one hostile mutation per batch (16 field-level mutators + byte-level mutation of the serialization that still deserializes), degenerate requests (zero-valued swaps/deposits/withdrawals, empty/garbage/partial MelPoW proofs at difficulties 0..2^32, undecodable stake documents, faucet-minted liquidity tokens, maximal values), every proposer delta class, multipliers 0..2^40; coins locked by adversarial covenant programs (self-append doubling up to 2^60 elements, nested loops, random bytes/instructions, environment digging) spent through apply_tx; histories in which a user creates (and empties) the ERG/SYM pool before the rules enable the built-in one; transactions with 255/256/257/up to 700 inputs of existing coins, 255/256 outputs and hundreds of covenants and signature slots; every call runs under catch_unwind with a panic hook that records message, location and originating crate; each shard is its own process with a journal so an abort is attributed. Supply per denomination is kept below 2^127 by construction. Non-trivial = batch with a hostile or degenerate member; distinct by member hashes".into();
     if p.shard == 0 && p.only_case.is_none() {
         probes(&mut mon);
     }
@@ -581,6 +581,21 @@ pub fn run(p: &Params) -> Report {
         covenant_scenario(&mut mon, case_seed);
         if case_seed % 8 == 0 {
             boundary_size_scenario(&mut mon, case_seed);
+        }
+        if case_seed % 8 == 1 {
+            // a user-created pool under the name of a built-in pool that is not enabled yet, across the activation
+            let mut r = Rng::new(case_seed ^ 0x5c);
+            let (net, act) = if r.chance(1, 2) { (NetID::Testnet, 500u64) } else { (NetID::Mainnet, 180_000u64) };
+            let scripted = 3 + r.usize(3);
+            let start = act - 1 - scripted as u64 + r.below(3);
+            let mut w = World::fabricated(case_seed, net, start, 0, 1 << 30);
+            let withdraw_in = match r.below(3) {
+                0 => None,
+                _ => Some(1 + r.usize(scripted - 1)),
+            };
+            mon.journal(&format!("C09 case={} user-created ERG/SYM pool before activation net={:?} start={} withdraw_in={:?}", case_seed, net, start, withdraw_in));
+            mon.rep.count("histories with a user-created ERG/SYM pool before its activation");
+            squat_history(&mut w, withdraw_in, scripted, 3, &mut [&mut mon]);
         }
     }
     if p.only_case.is_none() {
